@@ -435,6 +435,16 @@ class C08(C04):
       if v.oracle in ("schema-vs-metadata", "stray-column-records", "engine-tables"):
         raise
       sim.count("probe.c04_oracle_fired_ignored_here")
+      # ... but the state that C04 objects to is still a state in which C08 must hold.
+      for proc in (sim.primary, sim.twin):
+        if proc is None:
+          continue
+        try:
+          snap = proc.snapshot()
+        except Exception:     # pylint: disable=broad-except
+          continue            # not even readable: C04's business
+        check_schema(sim, proc, snap, self.prop, "after %s (failed call)" % ev["k"])
+      sim.primary.enter()
       raise StopRun()
     if ev["k"] != "open":
       check_schema(sim, sim.primary, sim.sigma, self.prop, "after " + ev["k"])
